@@ -54,6 +54,10 @@ fn main() {
         println!("{}", serde_json::to_string(&props::c16::digests(&args[2], &args[3])).unwrap());
         std::process::exit(0);
     }
+    if args[1] == "c13-child" && args.len() >= 5 {
+        // helper for C13's real-restart case
+        std::process::exit(props::c13::child(&args[2], &args[3], &args[4]));
+    }
     let id = args[1].to_uppercase();
     let Some(p): Option<Box<dyn Prop>> = props::lookup(&id) else {
         eprintln!("MACHINERY-ERROR: unknown property {id}");
